@@ -311,6 +311,9 @@ func decryptASN1(priv *PrivateKey, ciphertext []byte) ([]byte, error) {
 	if err != nil {
 		return nil, ErrDecryption
 	}
+	if !priv.Curve.IsOnCurve(x1, y1) {
+		return nil, ErrDecryption
+	}
 	return rawDecrypt(priv, x1, y1, c2, c3)
 }
 
